@@ -217,7 +217,13 @@ func (tds *Conn) ReadFrom() {
 		packet := &Packet{}
 		_, err := packet.ReadFrom(tds.ctx, tds.conn, time.Duration(tds.info.PacketReadTimeout)*time.Second)
 		if err != nil && !errors.Is(err, io.EOF) {
-			tds.errCh <- fmt.Errorf("error reading packet: %w", err)
+			// Do not block on a full error channel after the
+			// connection has been closed.
+			select {
+			case tds.errCh <- fmt.Errorf("error reading packet: %w", err):
+			case <-tds.ctx.Done():
+				return
+			}
 			continue
 		}
 
@@ -225,7 +231,11 @@ func (tds *Conn) ReadFrom() {
 		tdsChan, ok := tds.tdsChannels[int(packet.Header.Channel)]
 		tds.tdsChannelsLock.RUnlock()
 		if !ok {
-			tds.errCh <- fmt.Errorf("received packet for invalid channel %d", packet.Header.Channel)
+			select {
+			case tds.errCh <- fmt.Errorf("received packet for invalid channel %d", packet.Header.Channel):
+			case <-tds.ctx.Done():
+				return
+			}
 			continue
 		}
 
